@@ -5,7 +5,7 @@ from props.asm_common import family_cases, oracle
 
 PID = "C09"
 LEAN_TARGETS = ["EtkVerif.Props.C09"]
-RULE = ("pushN operands at 256^N-2 .. 256^N+1 for N = 1..3 and negative operands, with the operand a constant, a backward label, a "
+RULE = ("[family `provisional`: fixed-width operands over backward labels whose distance grows after they were read, in/out of range at exactly one of the two distances] pushN operands at 256^N-2 .. 256^N+1 for N = 1..3 and negative operands, with the operand a constant, a backward label, a "
         "forward label (value known only after layout), a macro argument, or a label difference; plus the layout family (operands "
         "that cross a boundary only after other pushes were widened). The reply must be ok with exactly the value's bytes, or an "
         "error with an empty output buffer; never a panic. non-trivial = the operand is within 2 of a width boundary")
@@ -15,7 +15,7 @@ ASSUMPTIONS = []
 
 def cases(rng, tier):
     n = 300 if tier == "quick" else 5000
-    return family_cases(rng, [("range", G.gen_range), ("layout", G.gen_layout), ("shrink", G.gen_shrink)], n, faults=0.1)
+    return family_cases(rng, [("range", G.gen_range), ("provisional", G.gen_provisional), ("layout", G.gen_layout), ("shrink", G.gen_shrink)], n, faults=0.1)
 
 
 def nontrivial(case, reply):
